@@ -12,6 +12,8 @@ CONSTANTS
   IdCases = {"lower", "upper"}
   HonestModes = {TRUE, FALSE}
   AnswerKinds = {"ok", "err", "garbage", "close"}
+  Restores = {}
+  DecSpawn = {TRUE, FALSE}
   NormalisedRemove = TRUE
 CONSTRAINT TConstraint
 INVARIANT DescriptionIsLatest
@@ -24,5 +26,6 @@ INVARIANT NotifiedWithNewNumber
 INVARIANT RemovedMeansGone
 INVARIANT NoUpdatesWhileRemoving
 INVARIANT ConnectsToLatest
+INVARIANT CallbackNeverRaises
 POSTCONDITION Accepted
 CHECK_DEADLOCK FALSE
